@@ -4,7 +4,7 @@
   its own refute-and-re-solve loop, over an abstract `solveCSP()` oracle.  Import-free.
 
   `while (true)` is modelled with a fuel of `#variables + 1`; `Proofs/C03Java.lean` shows the fuel is never exhausted
-  for a correct oracle (each satisfiable refuting clause refutes at least one key).
+  for a correct oracle (each satisfiable refutingJ clause refutes at least one key).
 -/
 import CspuzModel.Spec.SugarSyntax
 namespace Cspuz.SugarJava
@@ -30,20 +30,20 @@ def clauseExpr (e : Entry) : Expr :=
 def clause (e : Entry) : Option Expr := if e.live then some (clauseExpr e) else none
 
 /-- `Expression.create(Expression.OR, refutingExpr)`: the int slots first, then the bool slots. -/
-def refuting (es : List Entry) : Expr := .node .or (es.filterMap clause)
+def refutingJ (es : List Entry) : Expr := .node .or (es.filterMap clause)
 
 /-- `if (answer[i] != value) notRefuted[i] = false`. -/
-def demote (σ : Asg) (es : List Entry) : List Entry :=
+def demoteJ (σ : Asg) (es : List Entry) : List Entry :=
   es.map fun e => if valV σ e.v = e.ans then e else { e with live := false }
 
 /-- The `while (true)` loop: `problem.add(OR …); if (!solveCSP()) break; …`. -/
 def loop (O : Oracle) (vars : List SVar) : Nat → List Expr → List Entry → List Entry
   | 0, _, es => es
   | fuel + 1, problem, es =>
-    let problem' := problem ++ [refuting es]
+    let problem' := problem ++ [refutingJ es]
     match O vars problem' with
     | none => es
-    | some σ => loop O vars fuel problem' (demote σ es)
+    | some σ => loop O vars fuel problem' (demoteJ σ es)
 
 def valStr : Val → Str
   | .i n => intStr n
